@@ -288,7 +288,11 @@ func planReader(x *mon.Ctx, g cfg, i int) readerPlan {
 	}
 	// strength: mostly one that instantiates
 	rp.st = strengths[r.Intn(len(strengths))]
-	if r.Intn(100) < 70 {
+	valid := 70
+	if g.mode == ref.GM {
+		valid = 50 // the GM wrappers document a minimum strength of 32: visit the refusals more often
+	}
+	if r.Intn(100) < valid {
 		rp.st = 32
 		if g.mode == ref.GM && g.block() > 32 {
 			rp.st = g.block()
@@ -450,7 +454,7 @@ func oneFault(c *mon.Case, g cfg, entry, st, kind int, kn string, k int) {
 	}
 	if !d.open(entry%2, st, pers) {
 		if !c.Failed() && k >= 2 {
-			c.Fail("reject", "%s: constructor failed although the entropy fault is scheduled for source call %d", g.name(), k)
+			d.fail("reject", "%s: constructor failed although the entropy fault is scheduled for source call %d", g.name(), k)
 		}
 		return
 	}
@@ -471,14 +475,14 @@ func oneFault(c *mon.Case, g cfg, entry, st, kind int, kn string, k int) {
 	}
 	if done {
 		if k < faultCalls {
-			c.Fail("fault", "%s: the whole Read script completed although the source fails at call %d (harness expectation: %d source calls)", g.name(), k, faultCalls)
+			d.fail("fault", "%s: the whole Read script completed although the source fails at call %d (harness expectation: %d source calls)", g.name(), k, faultCalls)
 		} else {
 			c.Event("fault_control_runs_completed", 1)
 		}
 		return
 	}
 	if k >= faultCalls {
-		c.Fail("reject", "%s: Read failed in the control run (no fault within the script)", g.name())
+		d.fail("reject", "%s: Read failed in the control run (no fault within the script)", g.name())
 		return
 	}
 	// the source stays broken: the wrapper must keep failing, not fall back to the old seed
